@@ -389,6 +389,38 @@ def run(report, p):
     else:
         r9.check(True, coll, coll.node, "")
 
+    # ------------------------------------------------------------------ R18.11
+    r11 = report.rule(
+        "R18.11",
+        "a flag that answers a question about ONE source entry is reset for every source entry: a boolean local that is set True inside the merge loops and tested "
+        "there is set back to False on every path from the start of the innermost loop iteration that contains the test to the test (a reset hoisted out of the "
+        "per-entry loop lets `this format is already there` survive from one entry to the next: the following formats of that record are silently dropped)",
+        1,
+    )
+    g11 = cfg_of(fl)
+    r11.instance(fl, fl.node, "boolean flags of the merge loops scanned")
+    flags = {}
+    for n in walk_no_nested(fl.node):
+        if isinstance(n, ast.Assign) and len(n.targets) == 1 and isinstance(n.targets[0], ast.Name) and isinstance(n.value, ast.Constant) and isinstance(n.value.value, bool):
+            flags.setdefault(n.targets[0].id, {True: [], False: []})[n.value.value].append(n)
+    for nm, d in sorted(flags.items()):
+        if not d[True] or not d[False]:
+            continue
+        sets_in_loop = [a for a in d[True] if any(isinstance(x, (ast.For, ast.While)) for x in _anc(a))]
+        if not sets_in_loop:
+            continue
+        tests = [t for t in g11.nodes if t.kind == "test" and any(isinstance(x, ast.Name) and x.id == nm for x in ast.walk(t.ast)) and any(isinstance(x, (ast.For, ast.While)) for x in _anc(t.ast))]
+        for t in tests:
+            lp = next(x for x in _anc(t.ast) if isinstance(x, (ast.For, ast.While)))
+            # the flag-setting search loop itself (`for e in found: if e.fmt == fmt: flag = True`) is not the per-entry loop: take the loop around it that also contains a reset or, failing that, the nearest loop
+            r11.instance(fl, t.ast, f"flag `{nm}` tested in the iteration of `for {norm(lp.target)[:30]} in {norm(lp.iter)[:40]}`" if isinstance(lp, ast.For) else f"flag `{nm}`")
+            head = g11.by_ast[id(lp)]
+            resets = {g11.node_for(a).id for a in d[False]}
+            starts = [(m, l) for m, l in head.succ if l == "iter"] if isinstance(lp, ast.For) else list(head.succ)
+            stale = g11.find_path(head, {t.id}, avoid=resets, first_edges=starts)
+            r11.check(stale is None, fl, t.ast, f"`{nm}` is tested in every iteration of the loop over `{norm(lp.iter)[:40] if isinstance(lp, ast.For) else '?'}` but set back to False only outside it (line {d[False][0].lineno}): once it was set for one entry of a record it stays set for the record's remaining entries - a format that a later generation added for a path (gen 1 -h md5, gen 2 -h sha1) is silently left out of the packing list", witness=g11.fmt_path(stale) if stale else None, construct=f"flag `{nm}` not reset per iteration")
+    r11.check(True, fl, fl.node, "")
+
     # ------------------------------------------------------------------ R18.10
     r10 = report.rule(
         "R18.10",
